@@ -19,8 +19,8 @@ from mc.par import pmap
 from mc.report import Report
 
 LEVEL = "exploration"
-RULE = ("samples: {BaseSamples,Samples,SMCSamples} x {numpy,torch,jax} x {float32,float64} x 8 field subsets (+beta/evidence) x "
-        "{flat,nested} x N in {1,3}; histories: FlowHistory, SMCHistory with 0..3 stored populations and populated/empty series; "
+RULE = ("samples: {BaseSamples,Samples,SMCSamples} x {numpy,torch,jax} x {float32,float64} x 8 field subsets (+beta/evidence; weighted sets also with an evidence that is not the one derivable from their weights) x "
+        "{flat,nested} x N in {1,3} x parameter names stored in / not in lexicographic order; histories: FlowHistory, SMCHistory with 0..3 stored populations and populated/empty series; "
         "transforms: every class (Identity, Periodic, Logit, Probit, Affine, Composite x 6 option combinations, FlowTransform) "
         "fitted and unfitted x namespace; flows: ZukoFlow / FlowJax x {default, non-default kwargs} x {float32,float64} x "
         "{untrained, trained}; Aspire configs: product over {parameters, prior_bounds, periodic, flow kwargs, xp, dtype, eps, "
@@ -51,8 +51,12 @@ def run_samples(arg):
     xp = get_xp(ns)
     C = getattr(S, cls)
     try:
-        for dt, flags, layout, n in itertools.product(("float32", "float64"), itertools.product((0, 1), repeat=3), ("flat", "nested"), (1, 3)):
-            case = {"part": "samples", "class": cls, "ns": ns, "dtype": dt, "fields": list(flags), "layout": layout, "n": n}
+        for dt, flags, layout, n, names, given in itertools.product(("float32", "float64"), itertools.product((0, 1), repeat=3), ("flat", "nested"), (1, 3),
+                                                                   (["a", "b"], ["b", "a"]), (False, True)):
+            if given and not (cls == "Samples" and all(flags)):
+                continue  # 'given': a weighted set that carries an evidence other than the one derivable from its own weights (slice, concatenation, explicit argument)
+            case = {"part": "samples", "class": cls, "ns": ns, "dtype": dt, "fields": list(flags), "layout": layout, "n": n, "names": names,
+                    "evidence": "given" if given else "default"}
             i = np.arange(n, dtype=np.float64)
             kw = {}
             if flags[0]:
@@ -63,12 +67,12 @@ def run_samples(arg):
                 kw["log_q"] = xp.asarray(-0.9 - 0.2 * i)
             if cls == "SMCSamples":
                 kw.update(beta=0.25, log_evidence=-2.5, log_evidence_error=0.5)
-            if cls == "Samples" and not all(flags):
+            if cls == "Samples" and (given or not all(flags)):
                 kw.update(log_evidence=-2.5, log_evidence_error=0.5)
             r.case(explorer.digest(case), nontrivial=any(flags) or cls != "BaseSamples")
             path = os.path.join(tmp, "s.h5")
             try:
-                obj = C(x=xp.asarray(np.stack([0.1 * (i + 1), 1 / 3 + i], axis=1)), xp=xp, dtype=get_dtype(ns, dt), parameters=["a", "b"], **kw)
+                obj = C(x=xp.asarray(np.stack([0.1 * (i + 1), 1 / 3 + i], axis=1)), xp=xp, dtype=get_dtype(ns, dt), parameters=list(names), **kw)
                 with h5py.File(path, "w") as f:
                     obj.save(f, path="samples", flat=layout == "flat")
                 with h5py.File(path, "r") as f:
@@ -85,7 +89,7 @@ def run_samples(arg):
                 r.violation(f"{sig}/namespace/{ns}", getattr(back.xp, "__name__", ""), case)
             if str(tonp(back.x).dtype) != dt:
                 r.violation(f"{sig}/dtype/{ns}/{dt}->{tonp(back.x).dtype}", None, case)
-            if back.parameters != ["a", "b"]:
+            if list(back.parameters) != list(names):
                 r.violation(f"{sig}/parameters", back.parameters, case)
             for fld in ("x", "log_likelihood", "log_prior", "log_q"):
                 if not eq_arr(getattr(obj, fld), getattr(back, fld)):
